@@ -219,7 +219,7 @@ impl StateCheck for C10 {
         }
         // 3. consistent renumbering of system ids (legacy lines without id are system 0)
         let ids: BTreeSet<i32> = data.iter().filter(|d| d.tags[0] != "DEMANDA").map(|d| d.id.unwrap_or(0)).collect();
-        let targets = [0, 1, 2, 5, -3];
+        let targets = [0, 1, 2, 12, -3];
         let idv: Vec<i32> = ids.iter().copied().collect();
         let mut maps: Vec<Vec<i32>> = vec![vec![]];
         for _ in 0..idv.len() {
@@ -426,7 +426,7 @@ pub fn run(ctx: &Ctx) -> i32 {
         &FULL,
         Finish {
             level: "model_checking",
-            rule: "every base file (FLOW, AUX/ENV systems, shipped) x {all line permutations (<= 4 lines; else reversal + 2 rotations), split of each line in two, injective renumberings of the ids into {0,1,2,5,-3}, id 0 written/omitted, 8 decorations (BOM, header, blank lines, comment lines, trailing comments, whitespace, CRLF, combination)} x repeated evaluation under successive recorded hash keys until every hooked iteration site with n <= 3 keys has been seen in all n! orders (cap per state); non-trivial = base with >= 2 lines".into(),
+            rule: "every base file (FLOW, AUX/ENV systems, shipped) x {all line permutations (<= 4 lines; else reversal + 2 rotations), split of each line in two, injective renumberings of the ids into {0,1,2,12,-3}, id 0 written/omitted, 8 decorations (BOM, header, blank lines, comment lines, trailing comments, whitespace, CRLF, combination)} x repeated evaluation under successive recorded hash keys until every hooked iteration site with n <= 3 keys has been seen in all n! orders (cap per state); non-trivial = base with >= 2 lines".into(),
             assumptions: strs(&[
                 "results compared with 2e-5*magnitude+1e-6 (+1e-5 relative): rewritings change summation order",
                 "closure claim only for the six hooked sites; other hash loops see the same schedules without a closure claim",
